@@ -85,37 +85,57 @@ def run_case(case: dict) -> dict:
             log({"e": "prod", "kind": op["kind"], "code": op.get("code", 0), "reg": op["reg"], "data": list(op["data"]),
                  "ts": op["ts"], "tx": [{"id": f["id"], "d": f["d"]} for f in frames]}, raised)
         elif o == "wait":
-            res = {}
+            # one caller, or two callers waiting at the same time (each with its own filter)
+            filters = [op["filter"]] + ([op["filter2"]] if op.get("filter2") is not None else [])
+            res = [{} for _ in filters]
 
-            def waiter():
+            def waiter(k):
                 try:
-                    r = cons.wait(None if op["filter"] < 0 else op["filter"], timeout=op["timeout"])
-                    res["r"] = [] if r is None else [r.code, r.register, B(r.data), _ts(r.timestamp)]
+                    r = cons.wait(None if filters[k] < 0 else filters[k], timeout=op["timeout"])
+                    res[k]["r"] = [] if r is None else [r.code, r.register, B(r.data), _ts(r.timestamp)]
                 except Exception as exc:  # noqa
-                    res["r"] = ["exc", repr(exc)]
+                    res[k]["r"] = ["exc", repr(exc)]
             import canopen.emcy as emcy_mod
             from harness.bus import FakeTime
             vclock = emcy_mod.time = FakeTime()          # the deadline is taken on a virtual clock
-            th = threading.Thread(target=waiter, daemon=True)
-            th.start()
+            ths = [threading.Thread(target=waiter, args=(k,), daemon=True) for k in range(len(filters))]
+            for th in ths:
+                th.start()
+
+            def alive():
+                return sum(1 for th in ths if th.is_alive())
+
+            def parked():
+                return len(cons.emcy_received._waiters)
             fed = []
             for item in op["feed"]:
                 d, ts = item[0], item[1]
                 late = len(item) > 2 and item[2]
                 t0 = time.time()
-                while not cons.emcy_received._waiters and th.is_alive() and time.time() - t0 < 5:
+                while parked() < alive() and time.time() - t0 < 5:      # every caller still waiting is parked
                     time.sleep(0.0005)
-                if not th.is_alive():
+                if not alive():
                     break
-                if late:        # this frame arrives after the caller's time-out has expired
+                if late:        # this frame arrives after the callers' time-out has expired
                     vclock.now += op["timeout"] + 1.0
                 net1.notify(0x80 + nid, bytearray(d), ts)
                 fed.append([list(d), ts, 1 if late else 0])
                 t0 = time.time()
-                while cons.emcy_received._waiters and th.is_alive() and time.time() - t0 < 0.05:
+                while parked() and alive() and time.time() - t0 < 0.05:
                     time.sleep(0.0005)
-            th.join(10)
-            log({"e": "wait", "filter": op["filter"], "fed": fed, "result": res.get("r", ["hang"])})
+            if len(ths) > 1:
+                # callers that were woken have returned or are parked again; one that is still parked on the
+                # condition it was parked on before the last frame was never woken: its time runs out
+                t0 = time.time()
+                while alive() > parked() and time.time() - t0 < 5:
+                    time.sleep(0.0005)
+                if alive() and fed:
+                    vclock.now += op["timeout"] + 1.0
+            for th in ths:
+                th.join(10)
+            log({"e": "wait", "filter": filters[0], "fed": fed, "result": res[0].get("r", ["hang"]),
+                 "filter2": filters[1] if len(filters) > 1 else -2,
+                 "result2": res[1].get("r", ["hang"]) if len(filters) > 1 else []})
     for i, e in enumerate(ev):
         e["n"] = i + 1
     return {"ev": ev, "nid": nid, "ncb": case.get("ncb", 2)}
